@@ -193,7 +193,9 @@ func c17Build(dir, linkTargets string, entries []c17Entry) error {
 				return err
 			}
 		case kLink:
-			t := filepath.Join(linkTargets, e.Name)
+			/* (The target is called something else: what counts is the
+			name in the directory.) */
+			t := filepath.Join(linkTargets, "target-of-"+e.Name+".txt")
 			if err := os.WriteFile(t, c17Content(e.Name, kReg), 0o644); nil != err {
 				return err
 			}
